@@ -51,7 +51,7 @@ pub struct UnixTerminal {
     // if it is not None we are going to use escape sequence to detect
     // terminal size, otherwise ioctl is used.
     size: Option<TerminalSize>,
-    // a size query was queued on SIGWINCH and the answer has not arrived yet
+    // a size query was queued on SIGWINCH and may not have been sent yet
     size_query: bool,
     poll: Poll,
 }
@@ -474,6 +474,10 @@ impl Terminal for UnixTerminal {
                 })?;
                 self.stats.send += send;
                 sent_some = send > 0;
+                if self.write_queue.is_empty() {
+                    // whatever was queued has been sent, a size query too
+                    self.size_query = false;
+                }
                 tee_result?;
             }
 
@@ -530,7 +534,6 @@ impl Terminal for UnixTerminal {
                         // we are using escape sequence to determine terminal resize
                         if let Some(term_size) = self.size.as_mut() {
                             *term_size = size;
-                            self.size_query = false;
                             self.events_queue.push_back(TerminalEvent::Resize(size));
                         }
                     }
